@@ -57,9 +57,10 @@ impl FitToType for i64 {
 
 impl FitToType for f32 {
     fn fit_to_type(self) -> Variant {
-        let diff = self - self.round();
-        let has_fraction = diff.abs() > 0.0001;
-        if has_fraction {
+        // a whole number within the range of a long is retyped as integer or long;
+        // anything else (1 / 20000, 1E+30) keeps its value
+        let has_fraction = self.fract() != 0.0;
+        if has_fraction || self.abs() > MAX_LONG as f32 {
             Variant::VSingle(self)
         } else {
             (self.round() as i64).fit_to_type()
@@ -69,9 +70,8 @@ impl FitToType for f32 {
 
 impl FitToType for f64 {
     fn fit_to_type(self) -> Variant {
-        let diff = self - self.round();
-        let has_fraction = diff.abs() > 0.0001;
-        if has_fraction {
+        let has_fraction = self.fract() != 0.0;
+        if has_fraction || self.abs() > MAX_LONG as f64 {
             Variant::VDouble(self)
         } else {
             (self.round() as i64).fit_to_type()
